@@ -60,6 +60,9 @@ Definition stamp_rec (clk : bytes) (x : recordR) : recordR := mkRec (r_kind x) (
 (* every record of kind FileHeader (there is one, the file's) with an empty creation time gets the clock *)
 Definition stamp (clk : bytes) (f : fileR) : fileR := map_file (stamp_rec clk) f.
 
+(* the record does not need the clock *)
+Definition has_time (x : recordR) : bool := negb (String.eqb (r_kind x) "FileHeader" && is_nil (gets (r_val x) TIME)).
+
 (* ------------------------------------------------------------------ *)
 (* why a parsed column has its width                                    *)
 
